@@ -486,6 +486,8 @@ class Hostile(Suite):
                         st["mode"] = rng.choice([0o644, 0o644, (1 << 25) | 0o644, (1 << 26) | (1 << 21) | 0o600, (1 << 26) | 0o600, (1 << 24) | 0o644])
                         st["size"] = 0
                         st["ln"] = hx(rng.choice([b"nonexistent", b"../../outside/f", b"/outside/f", b"..", b"zzz", b"../sib/h", b"../../sent"]))
+                        if rng.random() < 0.2:
+                            st["ln"] = st["p"]       # a link to itself: its name was not sent EARLIER
                         script.insert(k + 1, {"t": "STAT", "stat": st})
                         if rng.random() < 0.5 and all(x["t"] == "STAT" and x.get("stat") for x in script):
                             # ... with a decoy: the escaping link name, cleaned against the root, names an entry that WAS sent before
@@ -543,9 +545,23 @@ class Hostile(Suite):
                 if x["t"] == "DATA" and x.get("id") is None:
                     x["id"] = rng.choice(dir_ids) if (x.pop("want") == "dir" and dir_ids) else len(stat_idx) + 5
                     x.pop("want", None)
+            selfname = None
+            if rng.random() < 0.04 and all(x["t"] == "STAT" and x.get("stat") for x in script):
+                # an entry that names ITSELF as its link source, while the destination holds a symlink of that name pointing outside
+                selfname = rng.choice([b"zself", b"~self", b"zz/self"]) if any(x["stat"]["p"] == hx(b"zz") and x["stat"]["mode"] & (1 << 31) for x in script) \
+                    else rng.choice([b"zself", b"~self"])
+                if hx(selfname) not in {x["stat"]["p"] for x in script}:
+                    script.append({"t": "STAT", "stat": {"p": hx(selfname), "mode": rng.choice([0o644, 0o666, 0o4755]), "uid": 0, "gid": 0, "size": 0, "mt": gen.MTIMES[1],
+                                                         "ln": hx(selfname), "dmaj": 0, "dmin": 0, "x": []}})
+                    script.sort(key=lambda x: gen.pathkey(bytes.fromhex(x["stat"]["p"])))
+                else:
+                    selfname = None
             script.append({"t": "STAT"})
             r = rng.random()
             dst = []
+            if selfname is not None and b"/" not in selfname:
+                forced_dst = forced_dst + [{"p": hx(selfname), "t": "symlink", "ln": hx(rng.choice([b"/outside/f", b"../../../outside/f", b"/outside/d/g"])),
+                                            "uid": 0, "gid": 0, "mt": gen.MTIMES[0], "mode": 0o777}]
             if r < 0.6:
                 # dirty destination with symlinks pointing outside, named like entries of the script
                 names = [bytes.fromhex(s["stat"]["p"]) for s in script if s["t"] == "STAT" and s.get("stat")]
@@ -560,7 +576,7 @@ class Hostile(Suite):
                     elif kind == "file":
                         dst.append({"p": hx(t), "t": "file", "size": 3, "uid": 0, "gid": 0, "mt": gen.MTIMES[0], "mode": 0o644})
             if forced_dst:
-                dst = [e for e in dst if e["p"] != forced_dst[0]["p"]] + forced_dst
+                dst = [e for e in dst if e["p"] not in {f["p"] for f in forced_dst}] + forced_dst
                 dst.sort(key=lambda e: gen.pathkey(bytes.fromhex(e["p"])))
             opt = {"cap": rng.choice([0, 4, 32]), "seed": rng.randrange(1 << 30)}
             answer = True if forced_dst else rng.random() < 0.7
